@@ -783,11 +783,17 @@ struct TabDef {
 
 impl TabDef {
     fn ddl(&self) -> String {
-        let defs: Vec<String> = self
+        // the primary key is declared inline (`k int primary key`) or, when it sits at an odd
+        // column position, by the table-level constraint `primary key(k)`
+        let table_level = self.cols.iter().position(|c| c.pk).is_some_and(|i| i % 2 == 1);
+        let mut defs: Vec<String> = self
             .cols
             .iter()
-            .map(|c| format!("{} {}{}", c.name, c.sql_ty, if c.pk { " primary key" } else if c.notnull { " not null" } else { "" }))
+            .map(|c| format!("{} {}{}", c.name, c.sql_ty, if c.pk && !table_level { " primary key" } else if c.notnull && !c.pk { " not null" } else { "" }))
             .collect();
+        if table_level {
+            defs.push(format!("primary key({})", self.cols.iter().find(|c| c.pk).unwrap().name));
+        }
         format!("create table {} ({})", self.name, defs.join(", "))
     }
     fn id_idx(&self) -> usize {
